@@ -115,7 +115,7 @@ fn explore(source: PipeSpec, only: Option<ReplaySpec>, index: u64, tier: Tier, w
         }
     };
     // histories in which one query meets a transient read error (EIO once, then healthy again)
-    let mut judge_eio = |h: &[usize], eio: (usize, u64), r: &mut RunReport, first: &mut Option<Violation>| {
+    let judge_eio = |h: &[usize], eio: (usize, u64), r: &mut RunReport, first: &mut Option<Violation>| {
         let mut d = arch_id ^ 0xE10 ^ (eio.0 as u64) << 40 ^ eio.1 << 48;
         for &x in h {
             d = seed::fnv_mix(d, x as u64 + 1);
